@@ -22,6 +22,24 @@ const (
 	KindCVC5Int // cvc5 --solve-bv-as-int=sum (for division / multiplication kernels)
 )
 
+var mainZ3Name string
+
+func mainZ3() string {
+	if mainZ3Name != "" {
+		return mainZ3Name
+	}
+	if v := os.Getenv("VERIF_Z3"); v != "" {
+		mainZ3Name = v
+		return v
+	}
+	if _, err := exec.LookPath("z3-new"); err == nil {
+		mainZ3Name = "z3-new"
+	} else {
+		mainZ3Name = "z3"
+	}
+	return mainZ3Name
+}
+
 func (k SolverKind) String() string {
 	return [...]string{"z3", "z3-new", "cvc5", "cvc5-bvint"}[k]
 }
@@ -54,9 +72,16 @@ func NewSolver(kind SolverKind, tt *TermTable, timeoutMs int, logPath string) (*
 	var cmd *exec.Cmd
 	switch kind {
 	case KindZ3:
-		cmd = exec.Command("z3", "-in", "-smt2")
+		// the default back end: z3 5.1 (z3-new) when installed - measured 4-5x faster than 4.8.12 on the
+		// server-level queries and on model extraction; VERIF_Z3=z3 forces the old binary
+		cmd = exec.Command(mainZ3(), "-in", "-smt2")
 	case KindZ3New:
-		cmd = exec.Command("z3-new", "-in", "-smt2")
+		// the *other* z3 (used for retries and cross-checks)
+		other := "z3"
+		if mainZ3() == "z3" {
+			other = "z3-new"
+		}
+		cmd = exec.Command(other, "-in", "-smt2")
 	case KindCVC5:
 		cmd = exec.Command("cvc5", "--incremental", "--lang=smt2", "--produce-models", "--tlimit-per="+strconv.Itoa(timeoutMs))
 	case KindCVC5Int:
@@ -313,6 +338,13 @@ func (s *Solver) GetValues(vars []*Term) (map[string]uint64, error) {
 	if len(vars) == 0 {
 		return res, nil
 	}
+	start := time.Now()
+	defer func() {
+		s.TotalTime += time.Since(start)
+		if s.log != nil {
+			fmt.Fprintf(s.log, "; get-value took %.3fs\n", time.Since(start).Seconds())
+		}
+	}()
 	const chunk = 200
 	for off := 0; off < len(vars); off += chunk {
 		end := off + chunk
